@@ -45,6 +45,6 @@ struct vk_shm {
 struct vk_stat { long ino, mode, nlink, uid, gid, size, atime, mtime, ctime, dev; };
 
 /* stand-in script actions (reply of VK_SCRIPT in buf): sequence of records */
-enum { VKA_END = 0, VKA_WRITE = 1 /* fd, len, bytes */, VKA_READALL = 2 /* fd */, VKA_EXIT = 3 /* code */, VKA_KILLSELF = 4 /* sig */, VKA_CLOSE = 5 /* fd */ };
+enum { VKA_END = 0, VKA_WRITE = 1 /* fd, len, bytes */, VKA_READALL = 2 /* fd */, VKA_EXIT = 3 /* code */, VKA_KILLSELF = 4 /* sig */, VKA_CLOSE = 5 /* fd */, VKA_ASK = 6 /* ask the controller again for the next actions */ };
 
 #endif
